@@ -71,6 +71,16 @@ func runCLI(c *run.Ctx, cs *Case) {
 			args = append([]string{"table", "--snapshot", "-n", n, "--cols", "10", "--sort-rows", cs.Spec, "--sort-cols", "text", "-e", "{$ c {1} {2}}"}, match...)
 		case "table-cols":
 			args = append([]string{"table", "--snapshot", "-n", "10", "--cols", n, "--sort-cols", cs.Spec, "--sort-rows", "text", "-e", "{$ {1} r {2}}"}, match...)
+		case "reduce", "reduce-sortexpr":
+			// reduce orders its groups with the contextual sorter (by group key, or by the value of --sort EXPR);
+			// --sort-reverse reverses either
+			args = append([]string{"reduce", "--snapshot", "--num", fmt.Sprint(len(items) + 2), "-g", "k={1}", "-a", "n={sumi {.} {2}}"}, match...)
+			if cs.Target == "reduce-sortexpr" {
+				args = append(args, "--sort", []string{"{.}", "{0}"}[rep%2]) // the whole group key / its first part: the same order as without --sort
+			}
+			if strings.Contains(cs.Spec, ":") {
+				args = append(args, "--sort-reverse")
+			}
 		default:
 			c.Inconclusive("unknown cli target " + cs.Target)
 			return
@@ -140,7 +150,7 @@ func parseCLI(target, out string, known map[string]bool) []string {
 				got = append(got, f[0])
 			}
 		}
-	case "table-rows":
+	case "table-rows", "reduce", "reduce-sortexpr":
 		for i, ln := range lines {
 			if i == 0 {
 				continue // header
@@ -165,7 +175,7 @@ func parseCLI(target, out string, known map[string]bool) []string {
 	return got
 }
 
-var cliTargets = []string{"histo", "bars", "table-rows", "table-cols"}
+var cliTargets = []string{"histo", "bars", "table-rows", "table-cols", "reduce", "reduce-sortexpr"}
 
 // cliKey: keys that survive the regex / expression / renderer unchanged and can be read back.
 func cliKey(k string) bool {
@@ -194,8 +204,14 @@ func clis(c *run.Ctx) {
 		r := c.Rand("cli", i)
 		target := cliTargets[i%len(cliTargets)]
 		mode := modes[(i/len(cliTargets))%len(modes)]
+		if strings.HasPrefix(target, "reduce") {
+			mode = "contextual" // not selectable for reduce
+		}
 		asc, desc := spellings(mode)
 		spec := append(append([]string{}, asc...), desc...)[r.Intn(4)]
+		if strings.HasPrefix(target, "reduce") {
+			spec = []string{asc[0], desc[0]}[r.Intn(2)]
+		}
 		var keys []string
 		for attempt := 0; attempt < 8 && len(keys) < 3; attempt++ {
 			ks, _ := genKeys(c, r, mode, 24)
